@@ -1,0 +1,93 @@
+//! Verification hooks for the socket layer (feature `verif-hooks` only): wrappers around
+//! the mapped-address maps and the address classification.
+
+use std::net::SocketAddr;
+
+use iroh_base::{CustomAddr, EndpointId, RelayUrl};
+
+use super::{
+    mapped_addrs::{MappedAddr, MultipathMappedAddr},
+    remote_map::{MappedAddrs, to_transport_addr},
+    transports::Addr,
+};
+
+/// How [`MultipathMappedAddr::from`] classifies a socket address.
+#[derive(Debug, Clone, Copy, PartialEq, Eq, Hash)]
+pub enum VerifAddrKind {
+    /// Per-endpoint ("mixed") mapped address.
+    Mixed,
+    /// Relay-path mapped address.
+    Relay,
+    /// Custom transport mapped address.
+    Custom,
+    /// Ordinary IP address.
+    Ip,
+}
+
+/// What a socket address resolves to: its classification plus the reverse lookup in the
+/// map of that kind (the steps the send path performs).
+#[derive(Debug, Clone, PartialEq, Eq)]
+pub enum VerifResolved {
+    /// Per-endpoint address and the endpoint it is mapped to, if any.
+    Mixed(Option<EndpointId>),
+    /// Relay address and the relay path it is mapped to, if any.
+    Relay(Option<(RelayUrl, EndpointId)>),
+    /// Custom address and the custom transport address it is mapped to, if any.
+    Custom(Option<CustomAddr>),
+    /// Ordinary IP address (as classified, not canonicalised).
+    Ip(SocketAddr),
+}
+
+/// Classifies with `MultipathMappedAddr::from`.
+pub fn classify(addr: SocketAddr) -> VerifAddrKind {
+    match MultipathMappedAddr::from(addr) {
+        MultipathMappedAddr::Mixed(_) => VerifAddrKind::Mixed,
+        MultipathMappedAddr::Relay(_) => VerifAddrKind::Relay,
+        MultipathMappedAddr::Custom(_) => VerifAddrKind::Custom,
+        MultipathMappedAddr::Ip(_) => VerifAddrKind::Ip,
+    }
+}
+
+/// The three production `AddrMap` instantiations (`MappedAddrs`).  Clones share the maps.
+#[derive(Debug, Clone, Default)]
+pub struct VerifMappedAddrs(MappedAddrs);
+
+impl VerifMappedAddrs {
+    /// Fresh, empty maps.
+    pub fn new() -> Self {
+        Self::default()
+    }
+
+    /// `endpoint_addrs.get(id).private_socket_addr()`.
+    pub fn endpoint_get(&self, id: &EndpointId) -> SocketAddr {
+        self.0.endpoint_addrs.get(id).private_socket_addr()
+    }
+
+    /// `relay_addrs.get(&(url, id)).private_socket_addr()`.
+    pub fn relay_get(&self, url: &RelayUrl, id: &EndpointId) -> SocketAddr {
+        self.0
+            .relay_addrs
+            .get(&(url.clone(), *id))
+            .private_socket_addr()
+    }
+
+    /// `custom_addrs.get(addr).private_socket_addr()`.
+    pub fn custom_get(&self, addr: &CustomAddr) -> SocketAddr {
+        self.0.custom_addrs.get(addr).private_socket_addr()
+    }
+
+    /// Classifies `addr` and performs the reverse lookup in the map of its kind.
+    pub fn resolve(&self, addr: SocketAddr) -> VerifResolved {
+        match MultipathMappedAddr::from(addr) {
+            MultipathMappedAddr::Mixed(m) => VerifResolved::Mixed(self.0.endpoint_addrs.lookup(&m)),
+            MultipathMappedAddr::Relay(m) => VerifResolved::Relay(self.0.relay_addrs.lookup(&m)),
+            MultipathMappedAddr::Custom(m) => VerifResolved::Custom(self.0.custom_addrs.lookup(&m)),
+            MultipathMappedAddr::Ip(a) => VerifResolved::Ip(a),
+        }
+    }
+
+    /// `remote_map::to_transport_addr` over the relay and custom maps.
+    pub fn to_transport_addr(&self, addr: SocketAddr) -> Option<Addr> {
+        to_transport_addr(addr, &self.0.relay_addrs, &self.0.custom_addrs)
+    }
+}
